@@ -105,6 +105,17 @@ CHECKS["C07"] = dict(
     design="§3 C07",
 )
 
+CHECKS["C04"] = dict(
+    category="exploration",
+    text="Full product of the six boolean options (64) x three input sets (result-heavy K with fragments/unions/directives, input/mutation/subscription/upload-heavy B with custom root types and recursive inputs, "
+         "B with configured custom scalars + files_to_include), operation sets of size 0/1/2/all, every single deviation of each non-boolean option on three bases (incl. each colliding module name), mixins, "
+         "custom base client, and every shape of the four documented refusals; each case generated with the real entry point, every file parsed, every module imported, every pydantic model checked complete "
+         "with resolvable annotations, __init__ imports vs __all__, reported file list vs directory listing.",
+    note="Trusted: CPython ast/importlib, pydantic model_rebuild. Reserved names in every naming role are enumerated by C18's generator phase rather than here.",
+    technique="exhaustive enumeration of the boolean configuration product and all single deviations of the other options through the real generator with load-time oracles",
+    design="§3 C04",
+)
+
 PENDING_REASON = "check not built yet in this round (work in progress, see DESIGN.md §6)"
 NOT_APPLICABLE = {}
 
